@@ -37,6 +37,7 @@ from pyttb.pyttb_utils import (
     MemoryLayout,
     OneDArray,
     Shape,
+    as_float_if_needed,
     gather_wrap_dims,
     get_index_variant,
     get_mttkrp_factors,
@@ -744,8 +745,14 @@ class tensor:
         if isinstance(other, ttb.tensor):
             if self.shape != other.shape:
                 assert False, "Inner product must be between tensors of the same size"
-            x = np.reshape(self.data, (self.data.size,), order=self.order)
-            y = np.reshape(other.data, (other.data.size,), order=self.order)
+            # Sum of products of real numbers: integer, boolean or single
+            # precision storage must not wrap around or saturate
+            x = np.reshape(
+                as_float_if_needed(self.data), (self.data.size,), order=self.order
+            )
+            y = np.reshape(
+                as_float_if_needed(other.data), (other.data.size,), order=self.order
+            )
             return x.dot(y).item()
         if isinstance(other, (ttb.ktensor, ttb.sptensor, ttb.ttensor)):
             # Reverse arguments and call specializer code
